@@ -39,6 +39,9 @@ type Op struct {
 type Case struct {
 	Max   int  `json:"max_concurrent"`
 	Queue int  `json:"answer_queue"`
+	// Direct: Shutdown is called on the *server.Server itself (as a ClientHook wrapper would) rather than through the
+	// last Release of a capnp.Client - the only way Shutdown can meet Sends that are still waiting inside the server
+	Direct bool `json:"direct_shutdown,omitempty"`
 	Ops   []Op `json:"ops"`
 }
 
@@ -80,7 +83,7 @@ type machine struct {
 	nextPipe uint64
 	nextGroup int
 	burstBusy []chan struct{}
-	stats struct{ queuedPipes, blockedIssues, overflowPipes int }
+	stats struct{ queuedPipes, blockedIssues, overflowPipes, shutdownMeetsSend int }
 }
 
 type shutdowner struct {
@@ -383,6 +386,9 @@ func (m *machine) exec(op Op) error {
 		m.shutdownDone = make(chan struct{})
 		m.log.Add(capsim.Event{Kind: "shutdown-begin"})
 		noSendBlocked := m.issueBusy == nil && len(m.burstBusy) == 0
+		if m.c.Direct && noSendBlocked == false {
+			m.stats.shutdownMeetsSend++
+		}
 		for _, cs := range m.calls {
 			for _, ps := range cs.pipes {
 				if ps.held {
@@ -394,12 +400,30 @@ func (m *machine) exec(op Op) error {
 			select {
 			case <-cs.sent:
 			default:
-				noSendBlocked = false
+				if !m.c.Direct {
+					noSendBlocked = false
+				}
+			}
+		}
+		if m.c.Direct {
+			// Server.Shutdown does not wait for Sends: the ones waiting for the previous call's Ack or for a free slot
+			// are rejected ("no call starts afterwards"), the running ones are cancelled and waited for
+			noSendBlocked = true
+			for _, cs := range m.calls {
+				for _, ps := range cs.pipes {
+					if ps.held {
+						noSendBlocked = false
+					}
+				}
 			}
 		}
 		go func() {
 			defer close(m.shutdownDone)
-			m.client.Release()
+			if m.c.Direct {
+				m.srv.Shutdown()
+			} else {
+				m.client.Release()
+			}
 		}()
 		if noSendBlocked {
 			// Shutdown cancels the running calls and waits for them: without any gate being opened, every
@@ -568,6 +592,10 @@ func run(c Case) (pbt.Result, error) {
 	res.Count("blocked_issues", int64(m.stats.blockedIssues))
 	res.Count("queued_pipelined", int64(m.stats.queuedPipes))
 	res.Count("overflow_pipelined", int64(m.stats.overflowPipes))
+	res.Count("direct_shutdown_with_send_waiting", int64(m.stats.shutdownMeetsSend))
+	if c.Direct {
+		res.Class("direct-shutdown")
+	}
 	res.Nontrivial = m.stats.blockedIssues > 0 || m.stats.queuedPipes > 0
 	return res, nil
 }
@@ -704,6 +732,7 @@ func (m *machine) groupSize(g int) int {
 
 func genCase(t *rapid.T) Case {
 	c := Case{Max: rapid.IntRange(1, 4).Draw(t, "max"), Queue: rapid.IntRange(1, 8).Draw(t, "queue")}
+	c.Direct = rapid.IntRange(0, 2).Draw(t, "direct") == 0
 	kinds := []string{"call", "call", "call", "burst", "open", "open", "pipe", "pipe", "pipe", "cancel", "shutdown"}
 	for i, n := 0, rapid.IntRange(1, 25).Draw(t, "n"); i < n; i++ {
 		op := Op{K: rapid.SampledFrom(kinds).Draw(t, "k"), A: rapid.IntRange(0, 7).Draw(t, "a")}
@@ -718,7 +747,7 @@ func genCase(t *rapid.T) Case {
 			op.Err = rapid.IntRange(0, 4).Draw(t, "err") == 0
 			op.Y = rapid.IntRange(0, 5).Draw(t, "y")
 		}
-		if op.K == "shutdown" && rapid.IntRange(0, 2).Draw(t, "really") != 0 {
+		if op.K == "shutdown" && !c.Direct && rapid.IntRange(0, 2).Draw(t, "really") != 0 {
 			op.K = "open"
 		}
 		c.Ops = append(c.Ops, op)
@@ -728,7 +757,7 @@ func genCase(t *rapid.T) Case {
 
 var _ = pbt.Register(pbt.Spec[Case]{
 	Property: "C12", Name: "server-script",
-	Rule:     "scripts of up to 25 ops against a server.Server (MaxConcurrentCalls 1-4, AnswerQueueSize 1-8) with one instrumented method: calls issued one after another from one goroutine (the next is issued once the previous Send returned; a Send the model predicts to block - previous call neither acked nor returned, or Max running - is awaited in the background and nothing is issued meanwhile), behaviours {return at once, Ack then wait, wait without Ack, yield k times then Ack then wait} x {results with a counted capability, error}, gate openings, context cancellations, pipelined calls on returned and not-yet-returned answers up to and beyond the queue size, Shutdown via the last Release, a call after shutdown. Invariants on the event log: implementations start in issue order; none starts before the previous one acknowledged or returned; running <= Max at every event; each answer resolves once with its own results/error; pipelined calls reach the capability of a successful answer exactly once, after its return and in the order they were made (incl. calls that found the queue full), or fail with its error; Shutdown cancels and waits for running calls, the user's Shutdown runs exactly once after the last return, no implementation starts afterwards; every Send/answer/Release returns. Non-trivial: a Send was blocked by the server or a pipelined call was queued.",
+	Rule:     "scripts of up to 25 ops against a server.Server (MaxConcurrentCalls 1-4, AnswerQueueSize 1-8) with one instrumented method: calls issued one after another from one goroutine (the next is issued once the previous Send returned; a Send the model predicts to block - previous call neither acked nor returned, or Max running - is awaited in the background and nothing is issued meanwhile), behaviours {return at once, Ack then wait, wait without Ack, yield k times then Ack then wait} x {results with a counted capability, error}, gate openings, context cancellations, pipelined calls on returned and not-yet-returned answers up to and beyond the queue size, Shutdown via the last Release or (1 in 3 cases) called on the Server itself while Sends are still waiting for an Ack or a slot, a call after shutdown. Invariants on the event log: implementations start in issue order; none starts before the previous one acknowledged or returned; running <= Max at every event; each answer resolves once with its own results/error; pipelined calls reach the capability of a successful answer exactly once, after its return and in the order they were made (incl. calls that found the queue full), or fail with its error; Shutdown cancels and waits for running calls, the user's Shutdown runs exactly once after the last return, no implementation starts afterwards; every Send/answer/Release returns. Non-trivial: a Send was blocked by the server or a pipelined call was queued.",
 	Quick:    2500, Thorough: 25000,
 	Gen:      genCase,
 	Run:      run,
